@@ -134,6 +134,8 @@ class C16(Check):
         # --- no-clobber, pre-existing files filled with a sentinel, and once more as empty files
         self.no_clobber(d, f"{n}s", asm, prtxt, fmt, wl, subset, case, ctx, lambda name: SENTINEL + name.encode(), retry_clean=clean)
         self.no_clobber(d, f"{n}z", asm, prtxt, fmt, wl, subset, case, ctx, lambda name: b"")
+        # ... with only errors shown (--log-level ERROR): the refusal is an error and must still name the file
+        self.no_clobber(d, f"{n}e", asm, prtxt, fmt, wl, subset, case, ctx, lambda name: SENTINEL + name.encode(), extra_args=("--log-level", "ERROR"))
         # ... as files that already hold exactly what this run would write (left over from an identical run) ...
         self.no_clobber(d, f"{n}i", asm, prtxt, fmt, wl, subset, case, ctx, lambda name: clean[name])
         # ... and as symbolic links to files kept elsewhere
@@ -142,7 +144,7 @@ class C16(Check):
         for explicit in (None, True):
             self.clobber_twin(d, f"{n}{'e' if explicit else 'd'}", asm, prtxt, fmt, wl, subset, clean, case, explicit, ctx)
 
-    def no_clobber(self, d, n, asm, prtxt, fmt, wl, subset, case, ctx, content, retry_clean=None, as_symlink=False):
+    def no_clobber(self, d, n, asm, prtxt, fmt, wl, subset, case, ctx, content, retry_clean=None, as_symlink=False, extra_args=()):
         import os
 
         ctx.evaluations += 1
@@ -158,7 +160,7 @@ class C16(Check):
                 os.symlink(side / name, outd / name)
             else:
                 (outd / name).write_bytes(content(name))
-        rc, _o, err, _exc = cli.invoke_p2a(self.args(asm, prtxt, outd, fmt, wl, False))
+        rc, _o, err, _exc = cli.invoke_p2a([*self.args(asm, prtxt, outd, fmt, wl, False), *extra_args])
         after = cli.dir_files(outd)
         log_text = b""
         for name, data in after.items():
@@ -245,4 +247,4 @@ class C16(Check):
 _ = Path
 CHECK = C16()
 # scope added in later rounds, kept in the evidence text
-CHECK.rule += ' The pre-existing files also as empty files. Pre-existing files also with exactly the bytes the run would write, and as symbolic links to files elsewhere (the link must survive). History: the refused --no-clobber run is repeated at once in the same process and directory with the default --clobber: exit 0 and every file == clean run.'
+CHECK.rule += ' The pre-existing files also as empty files. The sentinel run again with --log-level ERROR. Pre-existing files also with exactly the bytes the run would write, and as symbolic links to files elsewhere (the link must survive). History: the refused --no-clobber run is repeated at once in the same process and directory with the default --clobber: exit 0 and every file == clean run.'
